@@ -15,7 +15,7 @@ P = {
         "apply agreement below VNACAL_MAX_PRECISION is asserted for well-conditioned terms saved with >= 4 digits only; arbitrary finite terms are compared as terms, and by apply bit for bit at MAX",
     ],
     "tiers": tiers(
-        quick=[{"name": "rand", "mode": "run", "count": 1500, "max_size": 100, "shards": 12}],
+        quick=[{"name": "rand", "mode": "run", "count": 1000, "max_size": 100, "shards": 12}],
         thorough=[{"name": "rand", "mode": "run", "count": 6000, "max_size": 100, "shards": 16}],
     ),
 }
